@@ -46,6 +46,8 @@ Toks       == {"A", "B", "N", "P1", "P2", "E"}
 (*                  only) but none in the document -- no route                                                           *)
 (*   inv_body / inv_param          POST /items with a schema-violating body / query param   *)
 (*   inv_nobody     POST /items?n=1 without a body (requestBody is required)                 *)
+(*   inv_ctype      valid_post's body sent as text/plain (no such media type under requestBody) *)
+(*   inv_noparam    POST /items without the required query parameter n                        *)
 (*   inv_pathlevel  GET /plain/abc (path-level integer parameter violated)                  *)
 (*   valid_secure / inv_security / sec_nokey   GET /secure (operation-level security requirement [{key}]) with       *)
 (*                  X-Key: good / X-Key: bad / no X-Key header                                                       *)
@@ -56,7 +58,7 @@ Toks       == {"A", "B", "N", "P1", "P2", "E"}
 (* configured with (cfg.auth), whether a body / query violation matters depends on the Options (cfg.opt).             *)
 BaseValid       == {"valid_post", "valid_plain", "valid_upgrade", "opt_anon", "g_open"}
 NotFoundClasses == {"nf_path", "nf_method", "nf_options", "nf_head"}
-BaseInvalid     == {"inv_body", "inv_param", "inv_pathlevel", "inv_nobody"}
+BaseInvalid     == {"inv_body", "inv_param", "inv_pathlevel", "inv_nobody", "inv_ctype", "inv_noparam"}
 SecGood         == {"valid_secure", "g_good"}
 SecBad          == {"inv_security", "sec_nokey", "g_bad"}
 SecClasses      == SecGood \cup SecBad
@@ -94,8 +96,8 @@ AuthAccepts(c) ==
 RequestValid(c) ==
    \/ c.reqClass \in BaseValid
    \/ c.reqClass \in SecClasses /\ AuthAccepts(c)
-   \/ c.reqClass \in {"inv_body", "inv_nobody"} /\ c.opt = "excl_req_body"     \* Options.ExcludeRequestBody
-   \/ c.reqClass = "inv_param" /\ c.opt = "excl_query"        \* Options.ExcludeRequestQueryParams
+   \/ c.reqClass \in {"inv_body", "inv_nobody", "inv_ctype"} /\ c.opt = "excl_req_body"     \* Options.ExcludeRequestBody
+   \/ c.reqClass \in {"inv_param", "inv_noparam"} /\ c.opt = "excl_query"      \* Options.ExcludeRequestQueryParams
 
 (* the bytes behind each body token; P1 \o P2 = A on purpose (writes in pieces) *)
 Bytes(t) == CASE t = "A"  -> "{\"id\":1}"
